@@ -95,6 +95,7 @@ class SJob(AbstractJob):
         self.exc = Boom() if kw.pop('empty_exc', False) else Boom(name)
         if kw.pop('base_exc', False):
             self.exc = Halt(name)
+        self.inner = kw.pop('inner', None)
         self.retval = ('value-of', name)
         super().__init__(label=name, **kw)
 
@@ -109,6 +110,8 @@ class SJob(AbstractJob):
         return self is other
 
     async def co_run(self):
+        if self.inner:
+            return await self._co_run_inner()
         self.trace.log('enter', self.name)
         try:
             if self.duration is None:
@@ -123,9 +126,37 @@ class SJob(AbstractJob):
                 await asyncio.sleep(self.cancel_delay)
             self.trace.log('cancel-done', self.name)
             raise
+        if self.outcome == 'cancel-self':
+            # the body ends in the cancelled state by itself (it awaited something that somebody else cancelled):
+            # nobody asked the scheduler for it, and for the scheduler the job is over
+            self.trace.log('cancelled', self.name)
+            self.trace.log('cancel-done', self.name)
+            raise asyncio.CancelledError()
         if self.outcome == 'raise':
             self.trace.log('exit-raise', self.name)
             raise self.exc
+        self.trace.log('exit-ret', self.name)
+        return self.retval
+
+    async def _co_run_inner(self):
+        """a body with a timeout of its own (asyncio.timeout): the inner deadline d1 fires, the body cleans up for a while
+        (its task then has a cancellation in flight: Task.cancelling() > 0), swallows the TimeoutError and goes on"""
+        d1, cleanup, fallback = self.inner
+        self.trace.log('enter', self.name)
+        try:
+            try:
+                async with asyncio.timeout(d1):
+                    try:
+                        await asyncio.sleep(10 ** 6)
+                    finally:
+                        await asyncio.sleep(cleanup)
+            except TimeoutError:
+                pass
+            await asyncio.sleep(fallback)
+        except asyncio.CancelledError:
+            self.trace.log('cancelled', self.name)
+            self.trace.log('cancel-done', self.name)
+            raise
         self.trace.log('exit-ret', self.name)
         return self.retval
 
@@ -227,7 +258,7 @@ def build(spec, loop=None):
                      cancel_delay=sp.get('cancel_delay', 0.0),
                      shutdown_duration=sp.get('shutdown_duration', 0.0), yields=sp.get('yields', 0),
                      critical=sp.get('critical', False), forever=sp.get('forever', False),
-                     empty_exc=sp.get('empty_exc', False), base_exc=sp.get('base_exc', False))
+                     empty_exc=sp.get('empty_exc', False), base_exc=sp.get('base_exc', False), inner=sp.get('inner'))
         else:
             mem = [mk(m, name) for m in sp.get('members', [])]
             b.members[name] = [m['name'] for m in sp.get('members', [])]
